@@ -582,3 +582,42 @@ func TestC10Files(t *testing.T) {
 		}
 	}
 }
+
+// TestC10Data: classes of input bytes the enumeration's alphabet {a, b, \n} does not
+// have: CR-only and mixed line ends, NUL, a byte order mark, multi-byte UTF-8, bytes
+// that are not UTF-8 (also cut off at the very end of the input), one long line.
+func TestC10Data(t *testing.T) {
+	seedNote(t)
+	StartWatchdog("C10", 60*time.Second)
+	st := NewStats("C10", "data", "exhaustive over 20 programs (whole line / word / file, line and word anchors, literals, caseless and multi-byte literals, not-in, nullable loops, a guarded recursion, replace) x 24 texts (CR-only, mixed and doubled line ends, CR first / last, NUL, BOM, accented / CJK / 4-byte UTF-8, Latin-1 bytes, sequences cut off at the end of input, a 120-byte line with and without a line end); oracle: as in the enumeration (instruction budget, progress measures), and a call that never returns is a violation; every case non-trivial; distinct by (program, text)")
+	st.Exhaustive = true
+	defer st.Write()
+	progs := []string{
+		`find all whole line`, `find all whole word`, `find all whole file`, `find all line end`, `find all line start`, `find all word end any`,
+		`find all "fe"`, `find all 'é'`, `find all caseless 'É'`, `find all not in "é", "a"`, `find all not "\r\n"`, `find all at least 0 any "x"`,
+		`find all at least 0 (maybe whitespace) line end`, `find all at least 1 (line start or line end or 'a')`, `find all {'a' maybe r} = r`,
+		`find all at least 1 letter`, `find all (any = v) v`, `replace all whole line with 'L'`, `find all at least 0 not line end line end`, `find last 2 whitespace`,
+	}
+	long := strings.Repeat("ab ", 40)
+	texts := []string{
+		"a\rb", "ab\rcd\nef", "a\r", "\ra", "a\r\r\nb", "\r", "\r\r", "a\n\rb\r\n", "\x00a\x00", "a\x00\n\x00", "\ufeffab\n", "é", "café fée", "日本", "\U0001f600 a",
+		"caf\xe9", "caf\xe9\n", "f\xe9e", "caf\xc3", "\xf0\x9f", "a\xe2\x82", "\xff\xfe", long, long + "\r",
+	}
+	for _, src := range progs {
+		for ti, text := range texts {
+			c := RunCase{Src: src, Text: text, Limit: 3_000_000}
+			st.Eval()
+			SetInflight(func() string { return jsonStr(Failure{Property: "C10", Kind: "terminates", Case: c}) })
+			sig, what, steps := checkTerminates(c)
+			ClearInflight()
+			if sig == "compile-error" {
+				t.Fatalf("HARNESS: %s: %s", src, what)
+			}
+			if sig != "" {
+				Fail(t, Failure{Property: "C10", Kind: "terminates", What: fmt.Sprintf("%s on %q: %s", src, clipMsg(text, 40), what), Case: c, Sig: sig})
+			}
+			st.Max("max_steps", steps)
+			st.NonTrivial(fmt.Sprint(src, "\x00", ti), func() any { return map[string]any{"src": src, "text": clipMsg(text, 40), "steps": steps} })
+		}
+	}
+}
